@@ -19,8 +19,8 @@ RULE = ("a data set is partitioned into chunks, each chunk histogrammed over the
         "immutability; incompatible / other-dimension / non-histogram operands must be refused; non-trivial = >= 3 chunks and (>= 1 "
         "chunk with missed values or an adaptive extension on both sides); distinct by hash of (bins, chunks, order)")
 ASSUMPTIONS = [
-    "dyadic weights: all sums exact and order-independent, compared with ==",
-    "operands with 'nearly equal' bins (where the library's allclose tolerance decides) are not generated",
+    "dyadic weights: all sums exact and order-independent, compared with ==; a decimal-weight class (0.1, 0.2, ...) is compared within rounding",
+    "bins are the same bins only if their edges are equal: operands on neighbouring bins far from zero (offsets 1e5 .. 1.7e9) are generated and judged",
 ]
 
 
